@@ -218,7 +218,11 @@ def oracle_point(verdict, name, p, x, klass, r, h, refutations, args):
             except (OverflowError, ZeroDivisionError):
                 pass
         # (not at an exact break-point: there the documented value itself is demanded, also across a vertical edge)
-        if klass == "breakpoint" or (not any(abs(r - w) <= max(loose, 1e-9 * abs(w)) for w in alts) and not (min(alts) - loose <= r <= max(alts) + loose)):
+        # Exactness is demanded at the parameter values themselves; derived break-points (midpoints, centre +- width/2) are
+        # ROUNDED: when start and end are a few ulps apart the rounded midpoint is a neighbour of the real one, and the
+        # neighbour comparison below is the statement (the branches agree at the real midpoint, the term is just steep).
+        strict = klass == "breakpoint" and any(isinstance(v, float) and v == x for v in p.values())
+        if strict or (not any(abs(r - w) <= max(loose, 1e-9 * abs(w)) for w in alts) and not (min(alts) - loose <= r <= max(alts) + loose)):
             verdict.add_violation(f"{name}:formula", f"{name}{p}.membership({x!r}) = {r}, documented closed form gives {want}", {"term": name, "params": p, "x": x, "got": r, "want": want, "class": klass}); n += 1
     return n
 
